@@ -141,7 +141,7 @@ def check_C02(tier, rng, jobs):
     mc = [_mc_core("C02", "commit", tier, keys=["k1"], datas=["d1", "d2", "empty"], algos=["sha256", "sha1"],
                    times=["1"], metas=[], dests=[], fam=["writer", "write", "lookup"], maxops=4 if q else 5,
                    invariants=["TypeOK", "TmpAccounted", "LookupRefinesMap"],
-                   properties=["RoundTrip", "OnlyCommitMaps", "CommitVerdict", "AddressesPure"])]
+                   properties=["RoundTrip", "OnlyCommitMaps", "CommitVerdict", "AddressesPure", "CommittedReadable"])]
     progs = [G.roundtrip_program(rng, 12 if q else 40) for _ in range(16 if q else 200)]
     progs += [G.roundtrip_program(rng, 3 if q else 8, big=True) for _ in range(4 if q else 40)]
     agg = RN.run_batches("C02", RN.chunk(progs, 2 if q else 4), jobs=jobs)
@@ -153,16 +153,35 @@ def check_C02(tier, rng, jobs):
                             "xxh3 digests are not recomputed independently (no implementation installed)"]}
 
 
+def _multihash_finding(pid, tier):
+    """The model (which mirrors the code here) admits a keyed commit that succeeds and leaves an
+    entry that cannot be read: a declared multi-hash integrity whose strongest algorithm is not
+    the writer's.  The configuration is restricted to exactly that class of declared values, so
+    a counterexample it finds IS the listed finding; every other class is in the normal runs."""
+    wd = os.path.join(WORK, pid, "mc_multihash")
+    cfg = M.core_cfg(os.path.join(wd, "commit_multi.cfg"), keys=["k1"], datas=["d1"], algos=["sha256", "sha1"],
+                     times=["1"], metas=[], dests=[], fam=["writer", "lookup"], maxops=3, multisri=True,
+                     invariants=["TypeOK"], properties=["CommittedReadable"])
+    v, res = M.find_model_counterexample("MC_Core", cfg, wd)
+    if v is None:
+        return []
+    return [{"what": "model", "name": "CommittedReadable/multi-hash-stronger-algorithm", "props": ["C08", "C02"],
+             "event": {"ev": "model", "op": {"op": "w_commit"}}, "exp": None, "obs": None,
+             "trace": cfg, "programs": cfg, "violated": v}]
+
+
 def check_C08(tier, rng, jobs):
     q = tier == QUICK
     mc = [_mc_core("C08", "commit", tier, keys=["k1"], datas=["d1", "d2"], algos=["sha256", "sha1"],
                    times=["1"], metas=[], dests=[], fam=["writer", "write", "remove", "lookup"],
                    maxops=4 if q else 5,
                    invariants=["TypeOK", "TmpAccounted", "LookupRefinesMap"],
-                   properties=["CommitVerdict", "OnlyCommitMaps", "RoundTrip"])]
+                   properties=["CommitVerdict", "OnlyCommitMaps", "RoundTrip", "CommittedReadable"])]
+    known_divs = _multihash_finding("C08", tier)
     progs = [G.commit_program(rng, 14 if q else 40) for _ in range(16 if q else 200)]
     progs += [G.commit_program(rng, 3 if q else 6, big=True) for _ in range(4 if q else 40)]
     agg = RN.run_batches("C08", RN.chunk(progs, 2 if q else 4), jobs=jobs)
+    agg["divs"] += known_divs
     return {"mc": mc, "agg": agg, "samples": [progs[0]["steps"][:10]],
             "rule": "commits with declared size {none, less, equal, more} x declared integrity {none, right, "
                     "wrong, other algorithm, multi} x prior key state {absent, present, removed} x chunkings x "
@@ -631,10 +650,12 @@ CHECKS = {"C15": check_C15, "C07": check_C07, "C13": check_C13, "C04": check_C04
 # --------------------------------------------------------------------------------------
 
 def _signature(d):
+    """identifies a divergence by what failed: the specific input class / call site / rule"""
     ev = d.get("event") or {}
     op = ev.get("op") or {}
-    return "%s:%s:%s" % (d.get("what"), op.get("op", d.get("name", "")), (d.get("obs") or {}).get("e", "")
-                         if isinstance(d.get("obs"), dict) else "")
+    name = d.get("name") or (op.get("op") if isinstance(op, dict) else None) or d.get("rule", "")
+    obs = d.get("obs")
+    return "%s:%s:%s" % (d.get("what"), name, obs.get("e", "") if isinstance(obs, dict) else "")
 
 
 def finish(pid, tier, seed, t0, r):
